@@ -48,6 +48,50 @@ Section DOp.
 
   Lemma sev_sZ z : sev (sZ z) = nm z. Proof. reflexivity. Qed.
 
+  Lemma is_zero_sev x : is_zero x = true -> sev x = 0.
+  Proof.
+    destruct x as [p q| | | | |]; try discriminate. destruct p; try discriminate. intros _.
+    destruct q; try reflexivity; unfold ev; simpl; rewrite (Fdiv_def (Fth S)); ring.
+  Qed.
+
+  Lemma is_one_sev x : is_one x = true -> sev x = 1.
+  Proof.
+    destruct x as [p q| | | | |]; try discriminate. destruct p as [|p|p]; try discriminate.
+    destruct p; try discriminate. destruct q; try discriminate. reflexivity.
+  Qed.
+
+  Lemma fprod_zero l : In 0 l -> fprod l = 0.
+  Proof. induction l as [|x r IH]; simpl; [tauto|]. intros [->|H]; [ring|]. rewrite IH by auto. ring. Qed.
+
+  Lemma sev_smul l : sev (smul l) = fprod (map (fun x => sev x) l).
+  Proof.
+    unfold smul. destruct (existsb is_zero l) eqn:Ez.
+    - apply existsb_exists in Ez. destruct Ez as [x [Hx Zx]]. symmetry. apply fprod_zero.
+      apply in_map_iff. exists x. split; auto. now apply is_zero_sev.
+    - clear Ez.
+      assert (G : fprod (map (fun x => sev x) (filter (fun x => negb (is_one x)) l)) = fprod (map (fun x => sev x) l)).
+      { induction l as [|x r IH]; simpl; auto. destruct (is_one x) eqn:E1; simpl.
+        - rewrite IH, (is_one_sev x E1). ring.
+        - now rewrite IH. }
+      rewrite <- G. destruct (filter (fun x => negb (is_one x)) l) as [|x [|y r]].
+      + reflexivity.
+      + simpl. ring.
+      + apply sev_mul.
+  Qed.
+
+  Lemma sev_sadd l : sev (sadd l) = fsum (map (fun x => sev x) l).
+  Proof.
+    unfold sadd.
+    assert (G : fsum (map (fun x => sev x) (filter (fun x => negb (is_zero x)) l)) = fsum (map (fun x => sev x) l)).
+    { induction l as [|x r IH]; simpl; auto. destruct (is_zero x) eqn:E1; simpl.
+      - rewrite IH, (is_zero_sev x E1). ring.
+      - now rewrite IH. }
+    rewrite <- G. destruct (filter (fun x => negb (is_zero x)) l) as [|x [|y r]].
+    + reflexivity.
+    + simpl. ring.
+    + apply sev_add.
+  Qed.
+
   (* ------------------------------------------------------------ definedness on sx *)
   Definition known_fn (f : fname) : bool :=
     match f with Fsin | Fcos | Ftan | Fexp | Flog | Fsqrt => true | _ => false end.
@@ -274,9 +318,9 @@ Section DOp.
     - apply dop_atom_tD in H. apply (ev_tD S lg i (TAt a)); auto; exact I.
     - (* Add *)
       cbn [dop] in H. destruct (negb (has_field (SAdd l))); [now apply nofield_sound|].
-      match type of H with option_map SAdd ?g = _ => destruct g as [dl|] eqn:Eg; [|discriminate] end.
+      match type of H with option_map sadd ?g = _ => destruct g as [dl|] eqn:Eg; [|discriminate] end.
       inversion H. subst e'. clear H.
-      rewrite !sev_add, D_fsum, map_map. f_equal.
+      rewrite sev_sadd, sev_add, D_fsum, map_map. f_equal.
       simpl in Hs. apply sdf_list in Hs.
       revert dl Eg. induction l as [|y r IHr]; intros dl Eg.
       + inversion Eg. reflexivity.
@@ -295,7 +339,7 @@ Section DOp.
                    match dop lg i x, go r with
                    | Some dx, Some None => Some (Some (x, dx))
                    | Some dx, Some (Some (pr, dpr)) =>
-                       Some (Some (SMul [x; pr], SAdd [SMul [x; dpr]; SMul [dx; pr]]))
+                       Some (Some (SMul [x; pr], sadd [smul [x; dpr]; smul [dx; pr]]))
                    | _, _ => None
                    end
                end) in H.
@@ -323,7 +367,7 @@ Section DOp.
               -- rewrite !sev_mul in *. cbn [filter]. rewrite Ec. simpl. rewrite E1.
                  change (sev (SMul [y; pr])) with (ev S (TMul (sx2t y) (sx2t pr))). unfold ev. simpl. ring.
               -- change (sev (SMul [y; pr])) with (sev y * sev pr).
-                 change (sev (SAdd [SMul [y; dpr]; SMul [dy; pr]])) with (sev y * sev dpr + sev dy * sev pr).
+                 rewrite sev_sadd. cbn [map fsum]. rewrite !sev_smul. cbn [map fprod].
                  rewrite (D_mul S), E2, Hy. ring.
             * split; auto. rewrite !sev_mul in *. cbn [filter]. rewrite Ec. simpl. rewrite IHr. ring. }
       specialize (G l IHl Hs).
@@ -333,10 +377,9 @@ Section DOp.
         - simpl. apply sdf_list. rewrite Forall_forall in *. intros y Hy. apply filter_In in Hy. now apply Hs. }
       destruct (go l) as [[[pr dV]|]|]; [| |discriminate]; inversion H; subst e'; clear H.
       + destruct G as [E1 E2].
-        change (sev (SMul [SMul (filter is_coeff l); dV])) with (sev (SMul (filter is_coeff l)) * sev dV).
+        rewrite sev_smul. cbn [map fprod]. rewrite sev_smul. rewrite <- sev_mul.
         rewrite E1, (D_mul S), Hc, E2. ring.
-      + change (sev (SMul [SMul (filter is_coeff l); sZ 0])) with (sev (SMul (filter is_coeff l)) * 0).
-        rewrite G, Hc. ring.
+      + change (sev (sZ 0)) with 0. rewrite G, Hc. reflexivity.
     - (* Pow *)
       cbn [dop] in H. destruct (negb (has_field (SPow b x))); [now apply nofield_sound|].
       destruct (dop lg i b) as [db|] eqn:Eb; [|discriminate].
@@ -344,8 +387,8 @@ Section DOp.
       inversion H. subst e'. clear H.
       rewrite D_spow by exact Hs. destruct Hs as (Hb & Hx & Hn & Hp).
       rewrite <- (IHb _ eq_refl Hb), <- (IHx _ eq_refl Hx).
-      change (sev (SMul [SAdd [SMul [SFn Flog b; dx]; SMul [x; db; SPow b (sZ (-1))]]; SPow b x]))
-        with ((E S Flog (sev b) * sev dx + sev x * (sev db * sev (SPow b (sZ (-1))))) * sev (SPow b x)).
+      rewrite sev_smul. cbn [map fprod]. rewrite sev_sadd. cbn [map fsum]. rewrite !sev_smul. cbn [map fprod].
+      change (sev (SFn Flog b)) with (E S Flog (sev b)).
       rewrite sev_inv1. ring.
     - (* a function of a field: refused *)
       cbn [dop] in H. destruct (negb (has_field (SFn f a))); [now apply nofield_sound|discriminate].
